@@ -10,6 +10,15 @@ MAXR = 2 ** 96 - 1
 I128 = 2 ** 127 - 1
 
 
+
+def vacuity(ctx, msg):
+    """a vacuity alarm is a tool error only when nothing else explains the missing cases: with violations or
+    drift on record the verdict comes first and the alarm is demoted to a note"""
+    if ctx.violations or ctx.drift:
+        ctx.note("vacuity (demoted: violations or drift on record): " + msg)
+    else:
+        raise vlib.ToolError("vacuity: " + msg)
+
 def ilog10(x):
     return len(str(x)) - 1
 
@@ -111,8 +120,7 @@ def run(ctx):
     none = sum(1 for e in allev if e["st"] == "none")
     errs = sum(1 for e in allev if e["bst"] == "err")
     if min(rt, big_rt, none, errs, small) == 0:
-        raise vlib.ToolError("vacuity: round trips %d (above 2^96: %d), none %d, errors %d, small %d"
-                             % (rt, big_rt, none, errs, small))
+        vacuity(ctx, "round trips %d (above 2^96: %d), none %d, errors %d, small %d" % (rt, big_rt, none, errs, small))
     ctx.distinct += len({(e["dir"], e["op"], e["x"], e["neg"], e["d"], e["m"], e["s"]) for e in allev})
     ctx.cov["samples"] += [ev[len(ev) // 3], ev2[0], ev2[-1]]
     ctx.cov["trusted_base"] += ["TLC", "harness h-sdk c43 driver (calls the conversions, logs digit strings; "
